@@ -38,6 +38,6 @@ def run(tier, replay=None):
         K.run_into(out, build, problems, PROP, tier, ['spec_C14'], lambda rng, n: G.gen_many(rng, n), 1200, 25000, RULE_C,
                    replay=replay)
     if not replay or is_elab_replay:
-        E.run(out, build, problems, PROP, tier, ['spec_C14_stacks', 'spec_C04', 'spec_C03_selection'], E.default_gen, 500, 10000, RULE_E, replay=replay,
+        E.run(out, build, problems, PROP, tier, ['spec_C14_stacks', 'spec_C14_kinds', 'spec_C04', 'spec_C03_selection'], E.default_gen, 500, 10000, RULE_E, replay=replay,
               known={'spec_C04': 'kf_C04_accept_all', 'spec_C03_selection': 'kf_C03_newstyle'})
     return out.finish()
